@@ -298,12 +298,12 @@ def run(ctx):
     if ctx.phase("clock"):
         r = ctx.tlc_mc("Validator_Gen", clock_cfg("MSpec", 2 if ctx.quick else 3), label="clock: exp/nbf temporal theorems", timeout=1200)
         ctx.log("clock part model checked: %d distinct states" % r.distinct)
-        clock_behs = ctx.tlc_simulate("Validator_Gen", clock_cfg("CSpec", 6, props=False), num=400 if ctx.quick else 2000, depth=11)
+        clock_behs = ctx.tlc_simulate("Validator_Gen", clock_cfg("CSpec", 6, props=False), num=400 if ctx.quick else 1000, depth=11)
     etcd_behs = []
     if ctx.phase("etcd"):
         r = ctx.tlc_mc("Validator_Gen", etcd_cfg("MSpec", 2 if ctx.quick else 3, 2), label="etcd: credential snapshots, temporal theorems", timeout=1200)
         ctx.log("etcd part model checked: %d distinct states" % r.distinct)
-        etcd_behs = ctx.tlc_simulate("Validator_Gen", etcd_cfg("CSpec", 5, 4, props=False), num=250 if ctx.quick else 1500, depth=10)
+        etcd_behs = ctx.tlc_simulate("Validator_Gen", etcd_cfg("CSpec", 5, 4, props=False), num=250 if ctx.quick else 800, depth=10)
     if not ctx.phase("go"):
         return
 
@@ -318,14 +318,14 @@ def run(ctx):
                     [{"a": "present", "req": v["req"], "exp": v["exp"], "v": v["v"], "impl": v["impl"]} for v in vs])
     behs += clock_behs + etcd_behs
     rng = random.Random(ctx.seed * 7919 + 6)
-    nrand = (150, 12) if ctx.quick else (1500, 16)
+    nrand = (150, 12) if ctx.quick else (800, 14)
     behs += random_behaviours(rng, *nrand)
     inp = ctx.path("c06_behs.ndjson")
     with open(inp, "w") as fh:
         for b in behs:
             fh.write(jdump(b) + "\n")
     outp, tracep = ctx.path("c06_cases.ndjson"), ctx.path("c06_trace.ndjson")
-    reps = 3 if ctx.quick else 6
+    reps = 3 if ctx.quick else 4
     rc, out = ctx.go_test(PKG, "^TestVerifC06Replay$", env={"VERIF_IN": inp, "VERIF_OUT": outp, "VERIF_TRACE": tracep, "VERIF_REPS": reps},
                           timeout=1500)
     recs = ctx.read_ndjson(outp)
